@@ -113,6 +113,27 @@ func (g *G) optionValue() Frag {
 	case "float":
 		return g.floatLit()
 	case "array":
+		// all three spellings of an array literal; elements of mixed literal kinds, now and then a nested array
+		elem := func(int) Frag {
+			switch g.choose("option.array.elem", "string", "string", "int", "true", "null", "nested") {
+			case "int":
+				return g.intLit()
+			case "true":
+				return k("TRUE")
+			case "null":
+				return k("NULL")
+			case "nested":
+				return cat(k("ARRAY"), pl("["), g.strLit(), p("]"))
+			}
+			return g.strLit()
+		}
+		body := cat(pl("["), g.commaList("option.array", 0, 3, elem), p("]"))
+		switch g.choose("option.array.form", "bare", "bare", "ARRAY", "typed") {
+		case "ARRAY":
+			return cat(k("ARRAY"), body)
+		case "typed":
+			return cat(k("ARRAY"), pl("<"), k("STRING"), pl(">"), body)
+		}
 		return cat(p("["), g.commaList("option.array", 0, 2, func(int) Frag { return g.strLit() }), p("]"))
 	case "ident":
 		return g.plain()
